@@ -287,7 +287,7 @@ def still_fails(mod, case, want_key, pool):
     return clf(case, impl[0], model[0]) == want_key
 
 
-def shrink_case(mod, case, key, pool, budget=400):
+def shrink_case(mod, case, key, pool, budget=120):
     shr = getattr(mod, "shrink", None)
     if shr is None:
         return case
